@@ -11,9 +11,9 @@ from .c06 import escripts, parse_info, plaintext
 
 LEVEL = "model_checking"
 RULE = ("breadth-first over encryption histories: per step plaintext in {A, B, empty} x encryptor object {reused, new} x "
-        "entry {Encryptor.encrypt_and_generate, cmd_encrypt.main with files} x key {k1, k2}; every history up to the "
+        "entry {Encryptor.encrypt_and_generate, cmd_encrypt.main with files} x key {k1, k2} (+ the CLI main writing into ONE already populated output directory); every history up to the "
         "depth bound is executed twice - with OWNED entropy/clock (os.urandom replaced by a labelled counter stream, "
-        "time frozen: any IV that is constant, cached, reset per object/process or derived from plaintext/clock "
+        "time frozen, the global `random` generator re-seeded before every step: any IV that is constant, cached, reset per object/process or derived from plaintext/clock "
         "collides deterministically) and with real entropy; histories are not merged (hidden interpreter state). "
         "Invariant in every state: IVs published under the same key are pairwise distinct and every ciphertext "
         "decrypts (independent AES-GCM) with ITS published IV. Plus N fresh interpreters (CLI) encrypting the same "
@@ -22,11 +22,15 @@ RULE = ("breadth-first over encryption histories: per step plaintext in {A, B, e
 ASSUMPTIONS = ["the OS entropy source returns independent values (distinctness of genuinely random 96-bit IVs is a probability "
                "statement, collision chance 2^-96 per pair; model checking decides the program's part, not the probability)",
                "cryptography AESGCM for the independent decryption"]
-BOUNDS = {"quick": "histories depth 3 (24^3) with owned entropy, depth 2 with real entropy; 8 fresh interpreters; 1000-step history",
-          "thorough": "histories depth 4 (24^4) x {owned, real}; 64 fresh interpreters; 2*10^4-step history; 10^5 steps over 16 interpreters"}
+BOUNDS = {"quick": "histories depth 3 (26^3) with owned entropy, depth 2 with real entropy; 8 fresh interpreters; 1000-step history",
+          "thorough": "histories depth 4 (26^4) x {owned, real}; 64 fresh interpreters; 2*10^4-step history; 10^5 steps over 16 interpreters"}
 
 PT = {"A": plaintext(100, 1), "B": plaintext(33, 2), "E": b""}
-ALPHABET = [(p, o, e, k) for p in ("A", "B", "E") for o in ("reuse", "new") for e in ("lib", "main") for k in ("aes", "aes_b")]
+ALPHABET = [(p, o, e, k) for p in ("A", "B", "E") for o in ("reuse", "new") for e in ("lib", "main") for k in ("aes", "aes_b")] + \
+           [(p, "new", "main-same-dir", "aes") for p in ("A", "B")]        # CLI main writing into one, already populated, output directory
+
+
+OWNED_ACTIVE = [False]
 
 
 class Owned:
@@ -34,6 +38,7 @@ class Owned:
 
     def __enter__(self):
         self.n = 0
+        OWNED_ACTIVE[0] = True
         self._ur, self._t, self._tn = os.urandom, time.time, time.time_ns
 
         def urandom(k):
@@ -45,6 +50,7 @@ class Owned:
         return self
 
     def __exit__(self, *a):
+        OWNED_ACTIVE[0] = False
         os.urandom, time.time, time.time_ns = self._ur, self._t, self._tn
 
 
@@ -62,11 +68,14 @@ def one_step(enc_obj, pt, key_name, entry, d, step):
     from suit_generator.suit_encrypt_script_base import SuitDigestAlgorithms, SuitKWAlgorithms
     es, ks = escripts()
     kd = vkeys.key_dir()
+    if OWNED_ACTIVE[0]:
+        import random
+        random.seed(20240926)        # a host application / test framework that seeds the global (non-cryptographic) generator
     if entry == "lib":
         ep, tag, info, dg, n = enc_obj.encrypt_and_generate(pt, key_name, 5, kd, SuitDigestAlgorithms("sha-256"), SuitKWAlgorithms("direct"), ks)
         content = tag + ep
     else:
-        od = os.path.join(d, f"o{step}")
+        od = os.path.join(d, "shared-out" if entry == "main-same-dir" else f"o{step}")
         os.makedirs(od, exist_ok=True)
         fw = os.path.join(d, f"fw{step}.bin")
         open(fw, "wb").write(pt)
@@ -145,6 +154,9 @@ def kms_step(hist, agg, expand):
                 kms.init_kms(vkeys.key_dir())
             label = f"{mode} entropy, KMS history {[KMS_ALPHABET[x] for x in steps[:si + 1]]}"
             try:
+                if OWNED_ACTIVE[0]:
+                    import random
+                    random.seed(20240926)
                 nonce, tag, ct = kms.encrypt(plaintext=PT[p], key_name=k, context=vkeys.key_dir(), aad=aad)
             except Exception as ex:
                 agg.viol(f"C14:kms-encrypt-failed/{type(ex).__name__}", f"{label}: {ex}")
